@@ -72,6 +72,57 @@ class Flow:
             return ds[0]
         return None
 
+    def swapped_locals(self):
+        """{local: (swap block, the other argument operand)} for locals with a single definition whose only `&mut` borrow is an
+        argument of exactly one core::mem::swap call that dominates every other use of the local."""
+        if getattr(self, "_swapped", None) is not None:
+            return self._swapped
+        out = {}
+        b = self.b
+        for bb in range(b.n):
+            t = b.term(bb)
+            if b.is_cleanup(bb) or t["k"] != "call" or t["func"]["k"] != "const" or "fn" not in t["func"] or \
+                    t["func"]["fn"].get("def") != "core::mem::swap" or len(t["args"]) != 2:
+                continue
+            for k in (0, 1):
+                a, o = t["args"][k], t["args"][1 - k]
+                if a["k"] not in ("move", "copy") or a["place"]["p"]:
+                    continue
+                # &mut l, possibly through reborrows  &mut *(&mut l)
+                cur = a["place"]["l"]
+                rd = None
+                for _ in range(4):
+                    d_ = self.defs.get(cur, [])
+                    if len(d_) != 1 or d_[0][2] != "assign" or d_[0][3]["rv"]["k"] != "ref" or not d_[0][3]["rv"].get("mut"):
+                        rd = None
+                        break
+                    pp = d_[0][3]["rv"]["place"]["p"]
+                    if not pp:
+                        rd = d_
+                        break
+                    if [e_["k"] for e_ in pp] == ["deref"]:
+                        cur = d_[0][3]["rv"]["place"]["l"]
+                        continue
+                    rd = None
+                    break
+                if rd is None:
+                    continue
+                l = rd[0][3]["rv"]["place"]["l"]
+                if l <= b.arg_count or len(self.defs.get(l, [])) != 1 or l in self.partial:
+                    continue
+                ok = True
+                for ub, ui, node in self.uses_of_local(l):
+                    if ub == rd[0][0] and ui == rd[0][1]:
+                        continue          # the borrow handed to the swap
+                    if b.is_cleanup(ub):
+                        continue          # unwind path
+                    if not (b.dominates(bb, ub) and ub != bb):
+                        ok = False
+                if ok and l not in out:
+                    out[l] = (bb, o)
+        self._swapped = out
+        return out
+
     def mut_borrowed_scalars(self):
         """Integer / bool locals of which a `&mut` (or `&raw mut`) borrow is taken: they may be updated through it."""
         if getattr(self, "_mbs", None) is None:
@@ -97,6 +148,19 @@ class Flow:
         sd = self.single_def(local)
         if sd not in (None, "param") and local in self.mut_borrowed_scalars():
             sd = None      # a counter updated through `&mut local`: its value is not its initialiser
+        sw = self.swapped_locals().get(local) if sd not in (None, "param") else None
+        if sw is not None:
+            # `let mut l = init; mem::swap(&mut place, &mut l);` -- afterwards l holds what mem::replace(&mut place, init)
+            # would have returned (every other use of l comes after the swap)
+            sbb, other = sw
+            bb0, idx0, kind0, node0 = sd
+            init = self.rvalue_expr(node0["rv"], bb0, depth + 1) if kind0 == "assign" else self.call_expr(node0, bb0, depth + 1)
+            e = ("call", "core::mem::replace", (self.operand_expr(other, depth + 1), init), sbb)
+            if getattr(self, "_cuts", 0) == cuts0:
+                self._memo[key] = e
+            else:
+                del self._memo[key]
+            return e
         if sd == "param":
             e = ("param", local)
         elif sd is None:
@@ -182,11 +246,42 @@ class Flow:
             return None
         return cands[0]["ops"][pr[1]["i"]], pr[2:]
 
+    def variant_call_def(self, p):
+        """`(_x as V)..` where _x has several definitions, all of them enum aggregates of OTHER variants except exactly one
+        call: only that call can have produced variant V -> (call terminator, its block), else None."""
+        pr = p["p"]
+        if not pr or pr[0]["k"] != "downcast" or p["l"] in self.partial:
+            return None
+        ds = self.defs.get(p["l"], [])
+        if len(ds) < 2:
+            return None
+        calls = []
+        for (bb, idx, kind, node) in ds:
+            if kind == "call":
+                if node["func"]["k"] == "const" and "fn" in node["func"] and node["func"]["fn"].get("def") == "core::ops::FromResidual::from_residual":
+                    continue     # yields None / Err, never a payload variant matched by name here
+                calls.append((node, bb))
+            elif kind == "assign" and node["rv"]["k"] == "aggregate" and node["rv"].get("agg") == "adt" and node["rv"].get("variant") is not None:
+                if node["rv"]["variant"] == pr[0]["variant"]:
+                    return None
+            else:
+                return None
+        return calls[0] if len(calls) == 1 else None
+
     def place_expr(self, p, depth=0):
         vp = self.variant_payload_operand(p)
         if vp is not None and vp[0]["k"] in ("copy", "move"):
             op, rest = vp
             return self.place_expr({"l": op["place"]["l"], "p": list(op["place"]["p"]) + list(rest), "ty": p.get("ty")}, depth + 1)
+        vc = self.variant_call_def(p)
+        if vc is not None:
+            base = self.call_expr(vc[0], vc[1], depth + 1)
+            elems = []
+            for e in p["p"]:
+                k = e["k"]
+                elems.append("*" if k == "deref" else ("." + e["name"]) if k == "field" else ("@" + e["variant"]) if k == "downcast"
+                             else ("[_%d]" % e["local"]) if k == "index" else ("[%d]" % e["offset"]) if k == "constindex" else "<%s>" % k)
+            return self.mk_proj(base, tuple(elems))
         base = self.local_expr(p["l"], depth + 1)
         elems = []
         for e in p["p"]:
